@@ -319,7 +319,7 @@ static void classify_frame(Frame &f, const EndpointCfg &cfg) {
 	classify_response(f.bytes, cfg.key, f.info);
 	const RespInfo &i = f.info;
 	bool auth = i.authentic(cfg.mac_alg) && i.ver == cfg.pdu_ver && i.is_ext == cfg.extender;
-	f.bad = !i.framed || !i.known_tag || (!i.has_error && !auth);
+	f.bad = !i.framed || !i.known_tag || (!i.has_error && !auth) || i.malformed_imprint;
 	// an error PDU is acted upon before authentication; it is not "bad data" but its own cause class
 	if (i.framed && i.known_tag && i.has_error && i.ver == cfg.pdu_ver) f.bad = false;
 	f.clean_resp = auth && i.has_resp && i.has_id && i.status == 0 && !i.has_error;
@@ -503,6 +503,16 @@ void AsyncSim::op_add(const run::Op &op) {
 		a.accepted_seq = K.seq; a.accepted_ms = K.now_ms;
 		rec->att.push_back(a);
 		rec->outstanding = true;
+		// identifiers: id = generation << 32 | slot with an 8-bit generation counter that runs through 255 values, so the same id
+		// cannot come back before 255 further requests have been accepted by this service object (a reply kept from the earlier
+		// request would otherwise bear the later request's "own" identifier)
+		if (!ha && !rec->is_conf) {
+			accepted_adds++;
+			auto it = id_last_accept.find(a.id);
+			if (it != id_last_accept.end() && it->second.first == generation && accepted_adds - it->second.second < 255)
+				K.fail("C13", "request-id-reused", "add", "request #%d was given the id 0x%llx, which an earlier request of this service had %llu accepted requests ago", rec->idx, (unsigned long long)a.id, (unsigned long long)(accepted_adds - it->second.second));
+			id_last_accept[a.id] = {generation, accepted_adds};
+		}
 		if (!ha && !rec->is_conf && before >= cache)
 			K.fail("C13", "cache-full-not-refused", "add", "request accepted with %zu outstanding (incl. configuration handles) and cache size %zu", before, cache);
 		if (superseded) {
@@ -782,7 +792,8 @@ void AsyncSim::op_pushconf(const run::Op &op) {
 			case 1: return lo + var % (hi - lo + 1);
 			case 2: return lo + (var / 7) % (hi - lo + 1);
 			case 3: return lo + (var / 3) % (hi - lo + 1);
-			case 4: return far_hi + var % 1000;
+			// far too large: beyond the range, or an in-range value plus 2^32 / 2^63 (what a 32-bit or signed reading would take for in range)
+			case 4: return (var >> 3) % 3 == 0 ? far_hi + var % 1000 : ((var >> 3) % 3 == 1 ? (1ULL << 32) : (1ULL << 63)) + lo + var % (hi - lo + 1);
 			default: return far_lo;
 		}
 	};
